@@ -91,6 +91,22 @@ def shared_writes(idx, modname: str, tree: ast.AST, module_syms: Dict[str, str],
     def visit_fn(fn: ast.AST, cls: Optional[str], enclosing_locals: Set[str]):
         locs = local_names(fn) | enclosing_locals
         first = fn.args.args[0].arg if fn.args.args else None
+        # a local that is only ever bound to a module-level mutable object is another name for it: `xs = TABLE; xs[0] = ...` writes TABLE
+        bound: Dict[str, List[ast.AST]] = {}
+        for n in walk_no_nested(fn):
+            if isinstance(n, ast.Name) and isinstance(n.ctx, ast.Store):
+                bound.setdefault(n.id, [])
+            if isinstance(n, ast.Assign) and len(n.targets) == 1 and isinstance(n.targets[0], ast.Name):
+                bound.setdefault(n.targets[0].id, []).append(n.value)
+        stores_n = {}
+        for n in walk_no_nested(fn):
+            if isinstance(n, ast.Name) and isinstance(n.ctx, ast.Store):
+                stores_n[n.id] = stores_n.get(n.id, 0) + 1
+        aliases.clear()
+        for v, vals in bound.items():
+            if vals and len(vals) == stores_n.get(v, 0) and all(isinstance(x, ast.Name) and x.id not in locs and module_syms.get(x.id) == 'assign' for x in vals) \
+                    and len({x.id for x in vals}) == 1:
+                aliases[v] = vals[0].id
         for n in walk_no_nested(fn):
             if isinstance(n, ast.Global):
                 out.append((fn, n, f'declares `global {", ".join(n.names)}`'))
@@ -131,6 +147,8 @@ def shared_writes(idx, modname: str, tree: ast.AST, module_syms: Dict[str, str],
         while isinstance(base, ast.Subscript):
             base = base.value
         if isinstance(base, ast.Name):
+            if base.id in aliases:
+                return f'the module-level object `{aliases[base.id]}` (through the local name `{base.id}`)'
             if base.id in locs:
                 return None
             kind = module_syms.get(base.id)
@@ -156,6 +174,7 @@ def shared_writes(idx, modname: str, tree: ast.AST, module_syms: Dict[str, str],
 
     fn_kind: Dict[int, str] = {}
     cur_fn: List[ast.AST] = [None]
+    aliases: Dict[str, str] = {}
 
     def walk_body(body, cls: Optional[str]):
         for st in body:
